@@ -21,9 +21,9 @@ import (
 type c05Case struct {
 	Class string     `json:"class"` // valid | invalid | unspecified
 	Text  string     `json:"text"`
-	Msg   *ref.Msg   `json:"expected,omitempty"`    // valid: the message the text denotes
+	Msg   *ref.Msg   `json:"expected,omitempty"`     // valid: the message the text denotes
 	Alts  []*ref.Msg `json:"alternatives,omitempty"` // unspecified: the plausible readings
-	Note  string     `json:"note,omitempty"`        // which literal / why
+	Note  string     `json:"note,omitempty"`         // which literal / why
 }
 
 func init() { register("C05", "exploration", runC05, replayC05) }
